@@ -797,7 +797,14 @@ def run(ctx):
     prog = ctx.prog("dfs", "N")
     return [rule_tables(prog), rule_sequence_check(prog), rule_lookups(prog), rule_lowest_free(prog), rule_drive_number_range(prog),
             rule_show_config_covers_all(prog), rule_enumeration_covers_all(prog), rule_policy_in_force(prog),
-            rule_occupancy_is_presence(prog)]
+            rule_occupancy_is_presence(prog), _shared_option_handlers(prog)]
+
+
+def _shared_option_handlers(prog):
+    from . import c18
+    r = c18.rule_option_handlers(prog)
+    r.rule = "R-C16-10"      # --ui keeps the drive chosen with --drive: the command reads the drive it was addressed to
+    return r
 
 
 SELFTESTS = [
